@@ -18,6 +18,7 @@ DOC = {
         'C16.R3': 'every string fragment glob_to_regex emits for an operator starts with a character of the stop set (magic_chars + {?,*}); literal characters go through escape()',
         'C16.R4': 'the fixed prefix is lower-cased iff is_partial_match lower-cases the candidate (both controlled by case_insensitive)',
         'C16.R6': 'Pattern::regex_with anchors the full-match regex at both ends (^...$) and the prefix regex at the start (^...); matches / matches_partially use the anchored one, matches_prefix the prefix one',
+        'C16.R12': 'get_fixed_prefix: every quantifier that can make the preceding character optional - `?`, `*` and a counted repetition `{` - removes that character from the fixed prefix before stopping',
         'C16.R11': 'case folding survives pattern composition: a Pattern built from other Patterns (base directory + relative pattern, impl Add) is compiled with a case option derived from its operands, not with the defaults',
         'C16.R10': '`**` crosses every character a path can contain: the fragment emitted for `**` is `.*`, so the regex must be built with dot_matches_new_line(true) (or the fragment must carry its own (?s) flag); `*` and `?` are negated classes and match a newline anyway',
         'C16.R9': 'regex source text is edited at its end (anchor stripping, suffix tests) only with the escape state known: a trailing metacharacter is removed / recognised only after counting the backslashes before it (pattern.rs: regex_with, matches_subtree)',
@@ -45,6 +46,7 @@ def run(ctx):
     r9(ctx, lib)
     r10(ctx, lib)
     r11(ctx, lib)
+    r12(ctx, lib)
     if ctx.tier == 'thorough' and not getattr(ctx, 'sibling', None):
         from .. import sweep
         sweep.units(ctx, 'C16.R1')
@@ -424,3 +426,30 @@ def r11(ctx, lib):
     ctx.check(ok, rule, ab.path + '|case-option-kept', c.where(), 'the concatenated pattern is compiled with the case option of its operands',
               'the concatenated pattern is compiled with %s, i.e. the default (case-sensitive) options: with --ignore-case every relative --path / --exclude pattern, which is concatenated with the '
               'base directory, matches case-sensitively again (`group . -i --path "a/*"` does not select A/x), while absolute patterns and --name fold the case' % c.path.rsplit('::', 1)[-1])
+
+
+def r12(ctx, lib):
+    rule = 'C16.R12'
+    b = ctx.need_body(rule, 'regex::Regex::get_fixed_prefix')
+    if b is None:
+        return
+    erase = [c for c in b.calls(r'String::pop$|String::truncate$|Iterator::take$|Chars.*::take$')]
+    if not ctx.floor(rule, 'erase of the last prefix character in get_fixed_prefix', len(erase), 1, b.where()):
+        return
+    # characters under which an erase happens: constants of the comparisons / contains() arrays that dominate an erase
+    covered = set()
+    for e in erase:
+        for d in b.dominators()[e.bb]:
+            t = b.blocks[d]['term']
+            if t['k'] != 'switch':
+                continue
+            tt, ft = switch_targets_bool(t)
+            if tt is None or not b.dominates(tt, e.bb) or b.dominates(ft, e.bb):
+                continue
+            for v in slice_const_values(lib, backslice(b, [t['op']])):
+                for m in re.finditer(r"'(\\?.)'", v or ''):
+                    covered.add(unesc(m.group(1)))
+    want = {'?', '*', '{'}
+    ctx.check(want <= covered, rule, b.path + '|optional-makers', erase[0].where(), 'the previous character is erased before %s' % sorted(want),
+              'the previous character is erased only before %s: a counted repetition `{0,1}` / `{0,}` makes it optional as well, but `{` merely ends the prefix, so with --regex --path "/T/ab{0,1}/.*" '
+              'the directory /T/a is pruned although /T/a/f matches' % sorted(covered & want))
